@@ -64,6 +64,15 @@ def run(ctx):
                         why = 'copied from the lexer result'
                     else:
                         # line := line + (1 | count_lines(..)) : the store's source is the .0 of an AddWithOverflow on the field
+                        # (builds without overflow checks store the plain Add directly)
+                        if s['rv']['k'] == 'bin' and 'Add' in s['rv']['op']:
+                            a, c = s['rv']['a'], s['rv']['b']
+                            from_line = any(is_local_op(x) and has_field(x, fld) for x in (a, c)) or any(
+                                o2[0] == 'place' and has_field(o2[1], fld) for x in (a, c) if is_local_op(x) for o2 in origins(b, x))
+                            inc_ok = any(const_val(x) == '1_usize' for x in (a, c)) or any(
+                                o2[0] not in ('param', 'const', 'place') and o2[1].get('k') == 'call' and call_matches(o2[1], r'lexer::count_lines$') for x in (a, c) if is_local_op(x) for o2 in origins(b, x))
+                            ok = from_line and inc_ok
+                            why = 'line + 1 / line + count_lines(consumed text)'
                         for org in origins(b, s['rv']['o']) if s['rv']['k'] == 'use' else []:
                             if org[0] == 'place' and org[1]['p'] == ['.0']:
                                 tl = org[1]['l']
